@@ -428,7 +428,8 @@ func (v *visitor) checkFunc(fn reflect.Type, method bool, node ast.Node, name st
 			in = fn.In(i + offset)
 		}
 
-		if isIntegerOrArithmeticOperation(arg) {
+		// An integer literal takes the parameter's type only if that is a numeric (or interface) type.
+		if isIntegerOrArithmeticOperation(arg) && isNumber(in) {
 			t = in
 			setTypeForIntegers(arg, t)
 		}
